@@ -1838,6 +1838,13 @@ bool TypeChecker::isTypeAssignableFromOtherType(
         return false;
     }
 
+    // A pointer may be assigned to an object of type _Bool (6.5.16.1-1).
+    if (ty->kind() == TypeKind::Basic
+            && ty->asBasicType()->kind() == BasicTypeKind::Bool
+            && otherTy->kind() == TypeKind::Pointer) {
+        return true;
+    }
+
     return ((isArithmeticType(ty) && isArithmeticType(otherTy))
             || (isStructureOrUnionType(ty)
                 && typesAreCompatible(ty, otherTy, false, false))
